@@ -52,3 +52,16 @@ def cfg_class(cfg) -> str:
     """coarse class of a configuration used in finding keys (no flags / impl)"""
     o = cfg.u_origin or "-"
     return f"U(in={cfg.u_in},origin={o},out={cfg.u_out})/D(in={cfg.d_in},dest={cfg.d_dest or '-'},out={cfg.d_out})"
+
+
+ELEMENT_LAYER_LOOKUPS = {"nodes_by_link", "origins_by_node", "destinations_by_node", "origins", "destinations"}
+
+
+def require_fresh_lookups(rep: Report):
+    """The element layer reads the network only through these lookups; the abstract
+    world models them as the graph itself.  That they equal the graph after any
+    construction history is C08's pairing rules, re-checked here for exactly these
+    lookups so that the verdict is not conditional on another check."""
+    from . import c08
+
+    c08.run(rep, only=ELEMENT_LAYER_LOOKUPS)
